@@ -37,6 +37,15 @@ def mk_system(S, N, kind, rng):
 def accessor_checks(rep, rng, shapes):
     for ns, S, N in shapes:
         for kind in ("grid", "graph"):
+            try:
+                _accessor_case(rep, rng, ns, S, N, kind)
+            except Exception as e:  # noqa
+                rep.violation("accessors", "traj:exception", {"nsamples": ns, "nspecies": S, "ncells": N, "space": kind, "exc": repr(e)[:200]})
+
+
+def _accessor_case(rep, rng, ns, S, N, kind):
+    if True:
+        if True:
             system, labels, dims = mk_system(S, N, kind, rng)
             unit = rng.choice(["molecule", "mol", "µmol"])
             data = UnitArray(np.arange(ns * S * N, dtype=float), unit)
